@@ -921,7 +921,7 @@ func finalCase07(r *Run, t tree07) {
 	case ClsErr:
 		known := false
 		for _, k := range []string{"missing metadata.name", "missing kind", "not found in removal", "SortOrderTransformer: Failed to append",
-			"name hash suffix produces ID conflict"} {
+			"name hash suffix produces ID conflict", "already registered id"} {
 			if strings.Contains(msg, k) {
 				known = true
 			}
